@@ -79,12 +79,21 @@ class Ctx:
         setattr(self, "_" + key.replace("-", "_"), out)
         return out
 
-    def build_harness(self, pkg, files, race=False, name=None):
-        """Compile an in-package test binary of /repo/<pkg> with /verif/harness/overlay/<pkg>/<files> overlaid."""
-        key = (pkg, tuple(files), race)
+    def build_harness(self, pkg, files, race=False, name=None, shared=(), gopkg=None):
+        """Compile an in-package test binary of /repo/<pkg> with /verif/harness/overlay/<pkg>/<files> overlaid.
+        shared: names of harness/shared/<n>.go files injected too (their `package PKG` line is rewritten to gopkg,
+        default: fzf for src, else the directory name)."""
+        key = (pkg, tuple(files), race, tuple(shared))
         if key in self._harness:
             return self._harness[key]
         repl = {}
+        gopkg = gopkg or ("fzf" if pkg == "src" else os.path.basename(pkg))
+        for sname in shared:
+            txt = open(os.path.join(ROOT, "harness", "shared", sname + ".go")).read().replace("package PKG", "package " + gopkg)
+            gen = os.path.join(self.work, "shared-%s-%s_test.go" % (gopkg, sname))
+            with open(gen, "w") as fh:
+                fh.write(txt)
+            repl[os.path.join(REPO, pkg, "zz_verif_shared_%s_test.go" % sname)] = gen
         for f in files:
             src = os.path.join(OVERLAY, pkg, f)
             if not os.path.exists(src):
@@ -300,6 +309,65 @@ def replay_cases(ctx, binary, run, cases, expected, label, env=None, timeout=360
         ctx.violation(what, case)
     ctx.cov["evaluations"] += len(cases)
     return results
+
+
+# ---------------------------------------------------------------- J binding: TLC judges records from real code
+def judge(ctx, module, cfg, records, label, workers=None, timeout=3600, env=None):
+    """TLC evaluates the spec on every record (spec/<module>.tla must read `ndJsonDeserialize(IOEnv.TRACE)`,
+    walk it with a sharded index variable and print <<"MISMATCH", l, ...>> for every record the spec does not
+    explain).  Returns (sorted 0-based indices of mismatching records, TLCResult)."""
+    if not records:
+        raise Infra("no records to judge for " + label)
+    tpath = os.path.join(ctx.work, "trace-%s.ndjson" % label)
+    write_ndjson(tpath, records)
+    e = {"TRACE": tpath}
+    if env:
+        e.update(env)
+    res = ctx.tlc(module, cfg, workers=workers, timeout=timeout, env=e, label="judge-" + label)
+    if res.distinct < len(records):
+        raise Infra("judge %s visited %d states for %d records" % (label, res.distinct, len(records)))
+    bad = sorted({int(x.split(",")[0].strip()) - 1 for x in res.raw_items("MISMATCH")})
+    ctx.cov["traces_validated_against_impl"] += len(records)
+    ctx.cov["evaluations"] += len(records)
+    return bad, res
+
+
+def record_and_judge(ctx, binary, run, inputs, module, cfg, label, env=None, timeout=3600, kf=None,
+                     describe=None, max_report=10, workers=None):
+    """Feed `inputs` to harness function `run` (which writes one record per input: the input plus what the real
+    code returned), let TLC judge every record, re-run and re-judge the rejected ones alone; reproduced
+    rejections become violations.  Returns the records."""
+    ipath = os.path.join(ctx.work, "in-%s.ndjson" % label)
+    opath = os.path.join(ctx.work, "rec-%s.ndjson" % label)
+    write_ndjson(ipath, inputs)
+    e = {"VERIF_CASES": ipath, "VERIF_OUT": opath}
+    if env:
+        e.update(env)
+    ctx.run_harness(binary, run, env=e, timeout=timeout)
+    recs = read_ndjson(opath)
+    if len(recs) != len(inputs):
+        raise Infra("%s: %d inputs but %d records" % (label, len(inputs), len(recs)))
+    bad, _ = judge(ctx, module, cfg, recs, label, timeout=timeout, workers=workers)
+    if bad:
+        sub = [inputs[i] for i in bad[:max_report]]
+        write_ndjson(ipath + ".re", sub)
+        e2 = dict(e)
+        e2.update({"VERIF_CASES": ipath + ".re", "VERIF_OUT": opath + ".re"})
+        ctx.run_harness(binary, run, env=e2, timeout=timeout)
+        recs2 = read_ndjson(opath + ".re")
+        bad2, _ = judge(ctx, module, cfg, recs2, label + "-re", timeout=timeout, workers=1)
+        if not bad2:
+            raise Infra("%s: %d rejected records, none reproduced" % (label, len(bad)))
+        for j in bad2:
+            r = recs2[j]
+            what = "%s: spec rejects what the real code did: %s" % (label, describe(r) if describe else json.dumps(r)[:1500])
+            case = {"harness": run, "label": label, "record": r, "env": env or {}}
+            if kf:
+                sig = kf(r)
+                if sig:
+                    case["kf"] = sig
+            ctx.violation(what, case)
+    return recs
 
 
 def first_diff(exp, got):
